@@ -265,3 +265,37 @@ def run_unit(unit, repo_src=None, out_dir=None, extra_args=(), rlimit_mult=None,
         res.status = 'undecided'
         res.reason = 'resource limit / unmapped error: ' + '; '.join('%s: %s' % (o, m) for o, m in res.rlimit[:3])
     return res
+
+
+def run_probe(unit, repo_src=None, out_dir=None, threads=8, timeout=900):
+    """vacuity guard: `assert(false)` right after the preconditions of every contracted function must FAIL.
+    -> dict(probed=[...], reached=[...], not_reached=[...], status)"""
+    ensure_deps()
+    try:
+        g = generate(unit, repo_src, None, probe=True)
+    except Exception as e:
+        return dict(status='undecided', reason='%s: %s' % (type(e).__name__, e), probed=[], reached=[], not_reached=[])
+    out_dir = out_dir or os.path.join(BUILD, 'gen')
+    os.makedirs(out_dir, exist_ok=True)
+    path = os.path.join(out_dir, unit.name + '_probe.rs')
+    open(path, 'w').write(g.text())
+    rlib = glob.glob(os.path.join(DEPS, 'librust_decimal-*.rlib'))[0]
+    cmd = ['verus', path, '--extern', 'rust_decimal=' + rlib, '-L', 'dependency=' + DEPS, '--multiple-errors', '2', '--error-format=json', '--num-threads', str(threads)]
+    try:
+        p = subprocess.run(cmd, capture_output=True, text=True, timeout=timeout, cwd=out_dir)
+    except subprocess.TimeoutExpired:
+        return dict(status='undecided', reason='timeout', probed=g.probed, reached=[], not_reached=[])
+    reached = set()
+    for ln in p.stderr.split('\n'):
+        ln = ln.strip()
+        if not ln.startswith('{'): continue
+        try: d = json.loads(ln)
+        except Exception: continue
+        if d.get('level') != 'error': continue
+        for sp in d.get('spans', []):
+            li = sp['line_start'] - 1
+            if 0 <= li < len(g.lines):
+                m = re.search(r'@PROBE (.+)$', g.lines[li])
+                if m: reached.add(m.group(1).strip())
+    nr = [k for k in g.probed if k not in reached]
+    return dict(status='ok' if not nr else 'vacuous', probed=list(g.probed), reached=sorted(reached), not_reached=nr, cmd=' '.join(cmd))
